@@ -5,6 +5,8 @@ package c01
 import (
 	"fmt"
 	"math/rand"
+	"regexp"
+	"strconv"
 	"strings"
 	"sync"
 
@@ -17,6 +19,7 @@ import (
 type node struct {
 	kind     string // lit any arr obj
 	lit      string // i f s b n
+	tok      string // example token of a lit node, drawn when the schema text is printed
 	nullable bool
 	nulFalse bool // `nullable: false` written out (inert)
 	items    []*node
@@ -68,6 +71,12 @@ func spell(name string, r *rand.Rand) string {
 			sb.WriteString("\\n")
 		case c == '\t' && !esc:
 			sb.WriteString("\\t")
+		case c == '\r' && !esc:
+			sb.WriteString("\\r")
+		case c == '\b' && !esc:
+			sb.WriteString("\\b")
+		case c == '\f' && !esc:
+			sb.WriteString("\\f")
 		case c == '/' && !esc && mode == 2:
 			sb.WriteString("\\/")
 		case c < 0x20 || esc:
@@ -121,18 +130,233 @@ func genNode(r *rand.Rand, depth int) *node {
 	}
 }
 
-func litTok(k string, r *rand.Rand) string {
-	switch k {
-	case "i":
-		return []string{"1", "0", "-12", "7"}[r.Intn(4)]
-	case "f":
-		return []string{"1.5", "-0.25", "2.5"}[r.Intn(3)]
-	case "s":
+// ---- scalar spellings. The statement quantifies over all DOCUMENTS, i.e. over every RFC 8259 spelling of a scalar; the
+// Lean request only carries the KIND of a literal, so the kind of every numeral is computed here from its text by exact
+// decimal arithmetic on the digit strings (numKind; no floating point), independently of how the token was built.
+
+// numKind: the kind of an RFC 8259 numeral. Reading (the one the unchanged tree satisfies, AGENT_BRIEF "observations
+// that are not defects": `1.0` is a float, `2.3e+1` an integer): a numeral written with a fraction and WITHOUT an exponent
+// is a float whatever its digits; every other numeral is an integer iff its VALUE is integral (C10: the normalised decimal
+// expansion has no fractional digit), whatever the spelling: 25 = 2.5E+1 = 25e0 = 250E-1 = 0.25e2 = 25.0e0.
+func numKind(t string) string {
+	s := strings.TrimPrefix(t, "-")
+	mant, hasExp, e := s, false, 0
+	if i := strings.IndexAny(s, "eE"); i >= 0 {
+		v, err := strconv.Atoi(s[i+1:])
+		if err != nil {
+			panic("generator: bad exponent in " + t)
+		}
+		mant, hasExp, e = s[:i], true, v
+	}
+	ip, fp, hasDot := mant, "", false
+	if i := strings.IndexByte(mant, '.'); i >= 0 {
+		ip, fp, hasDot = mant[:i], mant[i+1:], true
+	}
+	if ip == "" || (hasDot && fp == "") || strings.Trim(ip+fp, "0123456789") != "" || (len(ip) > 1 && ip[0] == '0') {
+		panic("generator: not an RFC 8259 numeral: " + t)
+	}
+	if ip == "0" && !hasDot && hasExp {
+		panic("generator: numeral of the class K-C10-zeroexp (must not be generated): " + t)
+	}
+	if hasDot && !hasExp {
+		return "f"
+	}
+	digits := ip + fp
+	sig := strings.TrimRight(digits, "0")
+	if sig == "" {
+		return "i" // zero
+	}
+	// value = digits * 10^(e - len(fp)); integral iff the trailing zeros of the digit string cover the negative power
+	if len(fp)-e <= len(digits)-len(sig) {
+		return "i"
+	}
+	return "f"
+}
+
+// randDigits: n decimal digits, the first one not 0; the last one not 0 either if noTrailingZero
+func randDigits(r *rand.Rand, n int, noTrailingZero bool) string {
+	b := make([]byte, n)
+	for i := range b {
+		b[i] = byte('0' + r.Intn(10))
+	}
+	if b[0] == '0' {
+		b[0] = byte('1' + r.Intn(9))
+	}
+	if noTrailingZero && b[n-1] == '0' {
+		b[n-1] = byte('1' + r.Intn(9))
+	}
+	return string(b)
+}
+
+func digitCount(r *rand.Rand) int {
+	if r.Intn(8) == 0 {
+		return 4 + r.Intn(24)
+	}
+	return 1 + r.Intn(3)
+}
+
+// docNum: a document numeral whose kind is `want` (i / f), drawn over the RFC 8259 numeral space: a value m * 10^-scale
+// (integral for i: zero, trailing zeros, up to 27 digits; with 1..3, rarely up to 12 fractional digits for f) spelled
+// with an optional minus (also on zero), zeros appended to the fraction, and one time in two an exponent part (e / E,
+// sign absent / + / -, also -0, optionally zero-padded digits, -5..5, sometimes up to +-40, rarely up to +-400) with the
+// decimal point of the mantissa moved accordingly. One float in five is an integral value written with a plain
+// fraction (1.0, -0.00, 250.0). A zero integer part directly followed by an exponent (K-C10-zeroexp) is never produced:
+// a zero mantissa before an exponent always carries a fraction (0.0e3).
+func docNum(r *rand.Rand, want string) string {
+	m, scale, pad := "0", 0, 0
+	useExp := r.Intn(2) == 0
+	switch {
+	case want == "i":
+		if r.Intn(6) != 0 {
+			m = randDigits(r, digitCount(r), false)
+		}
+	case r.Intn(5) == 0: // integral value, plain fraction
+		if r.Intn(4) != 0 {
+			m = randDigits(r, digitCount(r), false)
+		}
+		useExp = false
+		pad = 1 + r.Intn(3)
+	default:
+		m = randDigits(r, digitCount(r), true)
+		scale = 1 + r.Intn(3)
+		if r.Intn(10) == 0 {
+			scale = 4 + r.Intn(9)
+		}
+	}
+	if pad == 0 && (useExp || want == "f") && r.Intn(4) == 0 {
+		pad = 1 + r.Intn(2)
+	}
+	e := 0
+	if useExp {
+		switch k := r.Intn(40); {
+		case k == 0:
+			e = r.Intn(801) - 400
+		case k < 5:
+			e = r.Intn(81) - 40
+		default:
+			e = r.Intn(11) - 5
+		}
+	}
+	s2 := scale + pad + e // fractional digits of the mantissa
+	ip, fp := "0", ""
+	switch {
+	case m == "0":
+		if s2 > 0 {
+			fp = strings.Repeat("0", s2)
+		}
+		if useExp && fp == "" {
+			fp = strings.Repeat("0", 1+r.Intn(2))
+		}
+	case s2 <= 0:
+		ip = m + strings.Repeat("0", pad-s2)
+	default:
+		d := m + strings.Repeat("0", pad)
+		if len(d) <= s2 {
+			d = strings.Repeat("0", s2-len(d)+1) + d
+		}
+		ip, fp = d[:len(d)-s2], d[len(d)-s2:]
+	}
+	t := ip
+	if r.Intn(3) == 0 {
+		t = "-" + t
+	}
+	if fp != "" {
+		t += "." + fp
+	}
+	if useExp {
+		t += string("eE"[r.Intn(2)])
+		a := e
+		switch {
+		case e < 0:
+			t += "-"
+			a = -e
+		case e == 0 && r.Intn(3) == 0:
+			t += "-"
+		case r.Intn(3) == 0:
+			t += "+"
+		}
+		if r.Intn(6) == 0 {
+			t += strings.Repeat("0", 1+r.Intn(2))
+		}
+		t += strconv.Itoa(a)
+	}
+	return t
+}
+
+// exNum: an example numeral of the schema text. The schema language has no exponent there (lexical error 301), so:
+// integers with optional minus (also -0) of 1..3, rarely up to 27 digits; floats with 1..4, rarely up to 15 fraction
+// digits, any digits (trailing zeros, an all-zero fraction: a plain fraction makes a float).
+func exNum(r *rand.Rand, want string) string {
+	t := "0"
+	if r.Intn(6) != 0 {
+		t = randDigits(r, digitCount(r), false)
+	}
+	if r.Intn(3) == 0 {
+		t = "-" + t
+	}
+	if want == "f" {
+		n := 1 + r.Intn(4)
+		if r.Intn(10) == 0 {
+			n = 5 + r.Intn(11)
+		}
+		b := make([]byte, n)
+		for i := range b {
+			b[i] = byte('0' + r.Intn(10))
+		}
+		if r.Intn(4) == 0 {
+			b[n-1] = '0'
+		}
+		if r.Intn(8) == 0 {
+			b = []byte(strings.Repeat("0", n))
+		}
+		t += "." + string(b)
+	}
+	return t
+}
+
+// decoded string values; spelled by `spell` with every escape form of RFC 8259 (raw bytes incl. multi-byte UTF-8, the
+// short escapes \" \\ \/ \b \f \n \r \t, \uXXXX in either hex case, surrogate pairs). The pool holds the empty string,
+// every character that has a short escape, control characters that only \u can spell, and strings whose content reads
+// like a JSON value of another kind, like a rule annotation, a comment or a type name.
+var strPool = []string{"x", "", "a b", "\"", "\\", "/", "\b", "\f", "\n", "\r", "\t", "\b\f\n\r\t\"\\/", "a\"b\\c/d", "\u0000", "\u001f\u007f",
+	"é", "€", "\U0001F600", "x\U0001F600éy", "1", "-0", "1.5", "2.5E+1", "true", "false", "null", "{}", "[]", "[1, 2]", "{\"a\": 1}",
+	"\\n", "\\u0041", "u0041", "@t", "a // {optional: true}", "// {nullable: true}", "# c", "/* c */", "a,b", ":", " ", "  x  ", "e", "E"}
+
+func strTok(r *rand.Rand) string {
+	if r.Intn(3) == 0 {
 		return []string{`"x"`, `""`, `"a b"`}[r.Intn(3)]
+	}
+	return spell(strPool[r.Intn(len(strPool))], r)
+}
+
+// exTok: the example token of a schema scalar of kind k
+func exTok(k string, r *rand.Rand) string {
+	switch k {
+	case "i", "f":
+		if r.Intn(3) == 0 {
+			return map[string][]string{"i": {"1", "0", "-12", "7"}, "f": {"1.5", "-0.25", "2.5"}}[k][r.Intn(3)]
+		}
+		return exNum(r, k)
+	case "s":
+		return strTok(r)
 	case "b":
 		return []string{"true", "false"}[r.Intn(2)]
 	}
 	return "null"
+}
+
+// docTok: a document token meant to have kind k, and the kind it has (numerals: computed from the text by numKind)
+func docTok(k string, r *rand.Rand) (string, string) {
+	switch k {
+	case "i", "f":
+		t := docNum(r, k)
+		return t, numKind(t)
+	case "s":
+		return strTok(r), "s"
+	case "b":
+		return []string{"true", "false"}[r.Intn(2)], "b"
+	}
+	return "null", "n"
 }
 
 // rules of a node as annotation text ("" if none)
@@ -162,9 +386,17 @@ func rules(n *node, mark int, r *rand.Rand) string {
 func print(sb *strings.Builder, n *node, mark int, ind string, comma string, r *rand.Rand) {
 	switch n.kind {
 	case "lit":
-		sb.WriteString(litTok(n.lit, r) + comma + rules(n, mark, r))
+		n.tok = exTok(n.lit, r)
+		if (n.lit == "i" || n.lit == "f") && numKind(n.tok) != n.lit { // the request carries the kind computed from the text
+			panic("generator: example numeral " + n.tok + " is not of kind " + n.lit)
+		}
+		sb.WriteString(n.tok + comma + rules(n, mark, r))
 	case "any":
-		sb.WriteString([]string{"1", `"z"`, "null", "true", "{}", "[]", "1.5", "[ ]", "{ }"}[r.Intn(9)] + comma + rules(n, mark, r))
+		ex := []string{"1", `"z"`, "null", "true", "{}", "[]", "1.5", "[ ]", "{ }"}[r.Intn(9)]
+		if r.Intn(2) == 0 {
+			ex = exTok(kinds[r.Intn(5)], r)
+		}
+		sb.WriteString(ex + comma + rules(n, mark, r))
 	case "arr":
 		if len(n.items) == 0 {
 			sb.WriteString("[]" + comma + rules(n, mark, r))
@@ -322,44 +554,70 @@ func randomDoc(r *rand.Rand, depth int) *doc {
 	}
 }
 
-func docText(d *doc, r *rand.Rand) string {
+// render: the text of the document and its S-expression, in one pass: every scalar draws its own spelling (a doc node
+// that occurs twice is spelled twice) and the S-expression carries the kind computed from that spelling.
+func render(d *doc, r *rand.Rand) (string, string) {
 	switch d.kind {
 	case "l":
-		return litTok(d.lit, r)
+		t, k := docTok(d.lit, r)
+		return t, "(l " + k + ")"
 	case "a":
 		parts := make([]string, len(d.items))
-		for i, it := range d.items {
-			parts[i] = docText(it, r)
-		}
-		return "[" + strings.Join(parts, ", ") + "]"
-	default:
-		parts := make([]string, len(d.items))
-		for i, it := range d.items {
-			parts[i] = spell(keyPool[d.keys[i]], r) + `: ` + docText(it, r)
-		}
-		return "{" + strings.Join(parts, ",") + "}"
-	}
-}
-
-func docSx(d *doc) string {
-	switch d.kind {
-	case "l":
-		return "(l " + d.lit + ")"
-	case "a":
 		var sb strings.Builder
 		sb.WriteString("(a")
-		for _, it := range d.items {
-			sb.WriteString(" " + docSx(it))
+		for i, it := range d.items {
+			var x string
+			parts[i], x = render(it, r)
+			sb.WriteString(" " + x)
 		}
-		return sb.String() + ")"
+		return "[" + strings.Join(parts, ", ") + "]", sb.String() + ")"
 	default:
+		parts := make([]string, len(d.items))
 		var sb strings.Builder
 		sb.WriteString("(o")
 		for i, it := range d.items {
-			sb.WriteString(" (m " + keyAtom(d.keys[i]) + " " + docSx(it) + ")")
+			t, x := render(it, r)
+			parts[i] = spell(keyPool[d.keys[i]], r) + `: ` + t
+			sb.WriteString(" (m " + keyAtom(d.keys[i]) + " " + x + ")")
 		}
-		return sb.String() + ")"
+		return "{" + strings.Join(parts, ",") + "}", sb.String() + ")"
 	}
+}
+
+var strRe = regexp.MustCompile(`"(\\.|[^"\\])*"`)
+var numRe = regexp.MustCompile(`-?[0-9][0-9.eE+-]*`)
+
+// numStats: distribution of the numeral spellings of a document text
+func numStats(rep *vh.Report, text string) {
+	for _, t := range numRe.FindAllString(strRe.ReplaceAllString(text, `""`), -1) {
+		dot, exp := strings.Contains(t, "."), strings.ContainsAny(t, "eE")
+		c := "num_" + numKind(t)
+		switch {
+		case dot && exp:
+			c += "_fraction_exponent"
+		case dot:
+			c += "_fraction"
+		case exp:
+			c += "_exponent"
+		default:
+			c += "_plain"
+		}
+		rep.Stat(c)
+		if strings.Contains(t, "E") {
+			rep.Stat("num_upper_E")
+		}
+		if strings.Contains(t, "e") {
+			rep.Stat("num_lower_e")
+		}
+		if strings.HasPrefix(strings.TrimPrefix(t, "-"), "0") && exp {
+			rep.Stat("num_zero_int_part_fraction_exponent")
+		}
+	}
+}
+
+func docText(d *doc, r *rand.Rand) string {
+	t, _ := render(d, r)
+	return t
 }
 
 // ---- WIDE stream: the statement quantifies over EVERY key of the example and EVERY array position, whatever their number.
@@ -540,7 +798,7 @@ func depthOf(n *node) int {
 }
 
 func Run(args []string) {
-	rep := vh.NewReport("c01-shape", "schemas of the rule-free fragment (scalars of 5 kinds, type any, arrays <=3, objects <=3 props with unmarked / optional:true / optional:false keys, nullable on scalars, containers and type-any nodes (also written out as nullable: false), type any over scalar and empty-container examples, rules in random order, key names from a pool of 15 decoded names incl. quotes, backslashes, control characters, non-ASCII and astral characters spelled in schema and document with random raw / short / \\uXXXX escapes, depth <= 5) x KeysAreOptionalByDefault on/off x documents (sampled inhabitants incl. int-for-float, null for nullable, extended arrays; mutated: dropped / added / repeated / reordered keys, kind swaps; unrelated); real Validate verdict vs Lean VN.validateT, VN.validate and spec VN.shape; nontrivial = schema of depth >= 2")
+	rep := vh.NewReport("c01-shape", "schemas of the rule-free fragment (scalars of 5 kinds, type any, arrays <=3, objects <=3 props with unmarked / optional:true / optional:false keys, nullable on scalars, containers and type-any nodes (also written out as nullable: false), type any over scalar and empty-container examples, rules in random order, key names from a pool of 15 decoded names incl. quotes, backslashes, control characters, non-ASCII and astral characters spelled in schema and document with random raw / short / \\uXXXX escapes, depth <= 5) x KeysAreOptionalByDefault on/off x documents (sampled inhabitants incl. int-for-float, null for nullable, extended arrays; mutated: dropped / added / repeated / reordered keys, kind swaps; unrelated); every scalar spelled afresh at each occurrence: document numerals over the RFC 8259 numeral space (minus also on zero, up to 27 digits, zeros appended to the fraction, exponent e / E with sign absent / + / - and zero-padded digits, -5..5, sometimes +-40, rarely +-400, decimal point moved: 25 = 2.5E+1 = 25e0 = 250E-1 = 0.25e2 = 25.0e0; integral values with a plain fraction 1.0 / -0.00; never a zero integer part directly followed by an exponent, K-C10-zeroexp), their kind i / f computed from the TEXT by exact decimal arithmetic (plain fraction without exponent = float, otherwise integer iff the value is integral); example numerals without exponent (schema language), long integers, -0, fractions with trailing / all zeros; strings from a pool of 43 decoded values (empty, every short-escape character, control characters, non-ASCII, astral, contents that read like numbers / true / null / containers / annotations / comments / type names) spelled with raw bytes / every short escape (quote, backslash, slash, b, f, n, r, t) / \\uXXXX escapes in schema and document; real Validate verdict vs Lean VN.validateT, VN.validate and spec VN.shape; nontrivial = schema of depth >= 2")
 	r := vh.NewRand(101)
 	nSchemas := vh.Pick(12000, 120000)
 	var reqs, impl, inputs []string
@@ -571,24 +829,25 @@ func Run(args []string) {
 		for j := 0; j < 10; j++ {
 			mut := []int{0, 0, 0, 10, 10, 25, 25, 50, 100, 100}[j]
 			d := sample(r, n, optDefault, mut)
-			dt := docText(d, r)
+			dt, dsx := render(d, r)
 			verdict := vh.Recover(func() string {
 				if err := s.Validate(jdoc.New("d", dt)); err != nil {
 					return "000"
 				}
 				return "111"
 			})
+			numStats(rep, dt)
 			if verdict == "111" {
 				rep.Stat("accepted")
 			} else {
 				rep.Stat("rejected")
 			}
 			rep.Stat(fmt.Sprintf("mutation_%d", mut))
-			reqs = append(reqs, "semn val "+schemaSx+" "+docSx(d))
+			reqs = append(reqs, "semn val "+schemaSx+" "+dsx)
 			impl = append(impl, verdict)
 			in := fmt.Sprintf("schema=%q optDefault=%v document=%q", text, optDefault, dt)
 			inputs = append(inputs, in)
-			rep.Case(schemaSx+" "+docSx(d), depthOf(n) >= 2)
+			rep.Case(schemaSx+" "+dsx, depthOf(n) >= 2)
 		}
 	}
 	// FIRST-USE race: the verdict is a function of schema and document, not of which goroutine happens to use a fresh
@@ -670,7 +929,7 @@ func Run(args []string) {
 		}
 		schemaSx := sx(wc.n, wc.optDefault)
 		for _, d := range wc.docs {
-			dt := docText(d, r)
+			dt, dsx := render(d, r)
 			verdict := vh.Recover(func() string {
 				if err := s.Validate(jdoc.New("d", dt)); err != nil {
 					return "000"
@@ -683,11 +942,11 @@ func Run(args []string) {
 			} else {
 				rep.Stat("wide_rejected")
 			}
-			reqs = append(reqs, "semn val "+schemaSx+" "+docSx(d))
+			reqs = append(reqs, "semn val "+schemaSx+" "+dsx)
 			impl = append(impl, verdict)
 			in := fmt.Sprintf("schema=%q optDefault=%v document=%q", text, wc.optDefault, dt)
 			inputs = append(inputs, in)
-			rep.Case(schemaSx+" "+docSx(d), true)
+			rep.Case(schemaSx+" "+dsx, true)
 		}
 	}
 	rep.Compare(reqs, impl, inputs, 16)
